@@ -220,3 +220,10 @@ def check(cx):
                 if not rets and not calls_in:
                     cx.bad(r6, "%s@bb%d" % (g.id, h), g.where(), "loop without exit edge")
     cx.ok(r6, "census", "", "%d natural loops in statement scope examined, none without an exit" % n_loops)
+
+    # ---- C16.7 (construct shared with C09.4) -------------------------------------------------------------------
+    from . import c09
+    cx.include(c09, {"C09.4"}, "C16.7", "shared with C09.4: the aborted-bitmap accessors guard their index with a strict bound; an "
+               "off-by-one there panics in TransactionCoordinator::abort, i.e. in the error path of every failing statement "
+               "(the known finding D19 of C09.4 is about ids beyond the bitmap and is not a panic)", floor=3,
+               skip=("drops-large-ids",))
